@@ -24,6 +24,7 @@
   destructor calls.
 -/
 import IgrisModel.C14.Lemmas
+import IgrisModel.C14.Ledger
 
 namespace Igris.C14
 open Igris.Proto
@@ -212,6 +213,51 @@ theorem sv_lifetime_once (c : Cfg) (ops : List Op) :
   cases hm : m.regs r with
   | none => rfl
   | some v => rw [hm] at this; exact this.elim
+
+/-- The ledger replayed over the EVENT TRACE.  `replayG` walks a sequence of
+    lifetime events keeping the set of live storage locations (object, slot) and
+    fails on a constructor event at a live location and on a destructor /
+    assignment / move event at a dead one (it is the check the harness's Tracked
+    type performs on the real code).  For EVERY history the complete event
+    sequence of the run passes it, and the live-set it ends with is exactly the
+    set of occupied slots of the final state. -/
+theorem sv_trace_passes_ledger (c : Cfg) (ops : List Op) :
+    ∃ m evs, runEv c ops Mach.init = .ok (m, evs) ∧ run c ops Mach.init = .ok m ∧
+      replayG evs (fun _ _ => false) = some (occR m.regs) := by
+  obtain ⟨m, evs, h1, _, h3⟩ := runEv_replays ops _ _ (minv_init c)
+  rw [occR_init] at h3
+  exact ⟨m, evs, h1, runEv_run _ _ _ _ h1, h3⟩
+
+/-- EVERY ELEMENT CONSTRUCTED IS DESTROYED EXACTLY ONCE: for any history followed
+    by the destruction of all objects, the event sequence replays from "nothing
+    live" to "nothing live" without a failure.  Hence at every storage location
+    constructor and destructor events alternate, beginning with a constructor
+    and ending with a destructor: each constructor event (each element ever
+    created by push, emplace, resize, a constructor, an assignment) is followed
+    by exactly one destructor event for it — none is destroyed twice, none is
+    overwritten, none survives. -/
+theorem sv_every_element_destroyed_exactly_once (c : Cfg) (ops : List Op) :
+    ∃ m evs, runEv c (ops ++ [.finish]) Mach.init = .ok (m, evs) ∧
+      replayG evs (fun _ _ => false) = some (fun _ _ => false) := by
+  obtain ⟨m, evs, h1, h2, h3⟩ := runEv_replays (c := c) (ops ++ [.finish]) _ _ (minv_init c)
+  have e : specRun c (ops ++ [.finish]) (fun _ => none) = fun _ => none := by
+    rw [specRun_append]; rfl
+  rw [e] at h2
+  have hn : occR m.regs = fun _ _ => false := by
+    funext r
+    have := h2.rel r
+    cases hm : m.regs r with
+    | none => simp [occR, hm]
+    | some v => rw [hm] at this; exact this.elim
+  rw [occR_init, hn] at h3
+  exact ⟨m, evs, h1, h3⟩
+
+/-- the ledger is not vacuous: it rejects a double destruction, a construction
+    over a live element, an assignment to raw storage, and reports a leak -/
+example : (replayG [⟨0, .ctor, 0⟩, ⟨0, .dtor, 0⟩, ⟨0, .dtor, 0⟩] (fun _ _ => false)).isNone = true := by decide
+example : (replayG [⟨0, .ctor, 0⟩, ⟨0, .ctor, 0⟩] (fun _ _ => false)).isNone = true := by decide
+example : (replayG [⟨0, .asg, 1⟩] (fun _ _ => false)).isNone = true := by decide
+example : ((replayG [⟨0, .ctor, 0⟩, ⟨0, .ctor, 1⟩, ⟨0, .dtor, 0⟩] (fun _ _ => false)).map fun g => g 0 1) = some true := by decide
 
 /-! ### the code as it was: one witness per repaired defect -/
 
